@@ -2,7 +2,7 @@
    harness/zz_verif/common_chain.go) into the extracted types, and canonical printing. *)
 open Vutil
 
-type hist = { gid : BinNums.coq_N; gpl : Store.payload; forbidden : BinNums.coq_N list; subs : Store.src list }
+type hist = { gid : BinNums.coq_N; gpl : Store.payload; forbidden : BinNums.coq_N list; subs : Store.src list; extras : string list }
 
 let payload_of bits ver merkle ts nonce : Store.payload =
   { Store.p_bits = z_of_string bits; p_ver = z_of_string ver; p_merkle = n_of_string merkle;
@@ -11,7 +11,7 @@ let payload_of bits ver merkle ts nonce : Store.payload =
 let parse_history (line : string) : hist =
   let toks = Stdlib.List.filter (fun t -> t <> "") (split_on ';' line) in
   let gid = ref (n_of_int 1) and gpl = ref (payload_of "486604799" "1" "1" "1231006505" "2083236893")
-  and forb = ref [] and subs = ref [] in
+  and forb = ref [] and subs = ref [] and extras = ref [] in
   Stdlib.List.iter (fun t ->
       if Stdlib.String.length t >= 2 && Stdlib.String.sub t 0 2 = "g=" then begin
         match split_on ',' (Stdlib.String.sub t 2 (Stdlib.String.length t - 2)) with
@@ -20,13 +20,15 @@ let parse_history (line : string) : hist =
       end else if Stdlib.String.length t >= 2 && Stdlib.String.sub t 0 2 = "f=" then
         forb := Stdlib.List.map n_of_string
             (Stdlib.List.filter (fun x -> x <> "") (split_on ',' (Stdlib.String.sub t 2 (Stdlib.String.length t - 2))))
+      else if Stdlib.String.length t >= 2 && Stdlib.String.sub t 0 2 = "x=" then
+        extras := Stdlib.String.sub t 2 (Stdlib.String.length t - 2) :: !extras
       else
         match split_on ',' t with
         | [i; p; b; v; m; ts; n] ->
           subs := { Store.s_id = n_of_string i; s_prev = n_of_string p; s_pl = payload_of b v m ts n } :: !subs
         | _ -> failwith ("bad sub " ^ t))
     toks;
-  { gid = !gid; gpl = !gpl; forbidden = !forb; subs = Stdlib.List.rev !subs }
+  { gid = !gid; gpl = !gpl; forbidden = !forb; subs = Stdlib.List.rev !subs; extras = Stdlib.List.rev !extras }
 
 let st_letter = function Store.Longest -> "L" | Store.Stale -> "S" | Store.Orphan -> "O"
 
